@@ -101,6 +101,15 @@ def ev(t: Term, env: Dict[Term, Any]) -> Any:
             raise Unsupported("dynamic call")
         args = [ev(a, env) for a in t[2]]
         kwargs = {n: ev(v, env) for n, v in t[3] if n != "@"}
+        if f in ("numpy.real", "numpy.imag", "numpy.abs", "numpy.absolute", "numpy.angle") and len(args) == 1 and not kwargs and \
+                ((isinstance(args[0], np.ndarray) and args[0].dtype == object) or hasattr(args[0], "free_symbols")):
+            # numpy's real / imag on an object array return the array itself; entries are exact symbolic numbers: apply the
+            # mathematical function element by element
+            import sympy as _sp
+            fn = {"numpy.real": _sp.re, "numpy.imag": _sp.im, "numpy.abs": _sp.Abs, "numpy.absolute": _sp.Abs, "numpy.angle": _sp.arg}[f]
+            if isinstance(args[0], np.ndarray):
+                return np.vectorize(fn, otypes=[object])(args[0])
+            return fn(args[0])
         if f in FUNCS:
             return FUNCS[f](*args, **kwargs)
         if f in METHODS:
